@@ -446,7 +446,7 @@ func (g *Gen) callAssignable(ci ssa.CallInstruction, names map[string]bool) bool
 		spec := g.W.specFor(f)
 		if spec != nil && spec.HasAssigns {
 			for _, a := range spec.Assigns {
-				if a.All {
+				if a.All || a.Elems {
 					return false
 				}
 				if a.Map != "" {
@@ -746,6 +746,8 @@ func (g *Gen) havocAssigns(spec *FuncSpec, env *SpecEnv, st *State, callee *ssa.
 		case a.All:
 			g.havocForCallG(c, st, true)
 			return
+		case a.Elems:
+			g.havocElems(st)
 		case a.Map != "":
 			var name string
 			if callee != nil {
@@ -1066,4 +1068,21 @@ func mentionsGhost(e Expr, spec *FuncSpec) bool {
 	}
 	walk(e)
 	return found
+}
+
+// havocElems: every element map (E_*) and cell map (C_*) gets a fresh version; the ones not declared yet
+// are remembered through the pending key "$elems" (see heapGet).
+func (g *Gen) havocElems(st *State) {
+	for _, k := range sortedKeys(g.heapSorts) {
+		if strings.HasPrefix(k, "E_") || strings.HasPrefix(k, "C_") {
+			n := g.fresh("H_" + k)
+			g.declare(n, g.heapSorts[k])
+			st.heap[k] = n
+		}
+	}
+	g.ctr++
+	if st.pend == nil {
+		st.pend = map[string]int{}
+	}
+	st.pend["$elems"] = g.ctr
 }
